@@ -16,21 +16,31 @@ type executionContext struct {
 }
 
 func (e *executionContext) AppendLog(ctx context.Context, log *ledger.Log) (*ledger.ChainedLog, chan struct{}, error) {
+	return e.appendLog(ctx, func() *ledger.Log {
+		return log
+	})
+}
+
+// appendLog builds the log (allocating a transaction id when it needs one), chains it and hands it to the
+// batcher as one atomic step, so that log ids and transaction ids reach the store in the order they were given.
+func (e *executionContext) appendLog(ctx context.Context, logBuilder func() *ledger.Log) (*ledger.ChainedLog, chan struct{}, error) {
 	if e.parameters.DryRun {
 		ret := make(chan struct{})
 		close(ret)
-		return log.ChainLog(nil), ret, nil
+		return logBuilder().ChainLog(nil), ret, nil
 	}
 
-	chainedLog := e.commander.chainLog(log)
+	verifhook.Yield(ctx, "append.enter")
+	e.commander.appendMu.Lock()
+	chainedLog := e.commander.chainLog(logBuilder())
 	logging.FromContext(ctx).WithFields(map[string]any{
 		"id": chainedLog.ID,
 	}).Debugf("Appending log")
-	verifhook.Yield(ctx, "append.chained")
 	done := make(chan struct{})
 	e.commander.Append(chainedLog, func() {
 		close(done)
 	})
+	e.commander.appendMu.Unlock()
 	verifhook.Yield(ctx, "append.handed")
 	return chainedLog, done, nil
 }
